@@ -83,3 +83,58 @@ def install(spec: Spec):
                                  when="('error' in kwargs and not isinstance(kwargs['error'], BaseException) and not isinstance(kwargs['error'], str)) or "
                                       "('status' in kwargs and not (kwargs['status'] == 'pending' or kwargs['status'] == 'started' or kwargs['status'] == 'completed' or kwargs['status'] == 'error'))")])
     spec.methods[('EventResult', 'update')] = 'EventResult.update'
+
+    # ------------------------------------------------------------------ EventResult(...) constructor (pydantic model init, A9) and event_result_update
+    from pyvc.models import kw as _kw
+    from pyvc.values import mk_none, mk_str, coerce, ANY
+
+    def eventresult_new(ex, n, awaited, recv=None):
+        r = ex.fresh_obj('EventResult', 'eventresult')
+        given = {k.arg: ex.eval(k.value) for k in n.keywords}
+        defaults = {'status': mk_str('pending'), 'result': mk_none(), 'error': mk_none(), 'started_at': mk_none(), 'completed_at': mk_none(),
+                    'timeout': mk_none(), 'result_type': mk_none(), '_handler_completed_signal': mk_none()}
+        for f in ('event_id', 'handler_id', 'handler_name', 'eventbus_id', 'eventbus_name', 'status', 'timeout', 'result_type', 'result', 'error',
+                  'started_at', 'completed_at', '_handler_completed_signal'):
+            v = given.get(f, defaults.get(f))
+            if v is None:
+                raise Unsupported('EventResult() without ' + f)
+            ex.write_field(r.term, f, v)
+        et = ex.field_ty('event_children')
+        ex.write_field(r.term, 'event_children', ex.mk_list(et.args[0], z3.K(z3.IntSort(), NONE), z3.IntVal(0)))
+        st = ex.read_field(r.term, 'status')
+        ok = ex.spec_bool(spec.type_invariants['EventResult'], {'x': r})
+        ex.safety('ValueError', ok, 'pydantic_status_literal')
+        return r
+    from pyvc.values import Unsupported
+    spec.builtins['EventResult.__new__'] = eventresult_new
+
+    HID = 'hid(eventbus, handler)'
+    R = 'self.event_results'
+    spec.fn('BaseEvent.event_result_update', file=M, qual='BaseEvent.event_result_update', varkw='kwargs',
+            params={'self': 'BaseEvent', 'handler': 'Handler', 'eventbus': 'opt[EventBus]', 'kwargs': 'dict[str,any]'}, returns='EventResult',
+            requires=[('bus_given', 'eventbus is not None and loop_running()', []),
+                      ('valid_status_keyword', "implies('status' in kwargs, kwargs['status'] == 'pending' or kwargs['status'] == 'started' or kwargs['status'] == 'completed' or kwargs['status'] == 'error')", []),
+                      ('valid_error_keyword', "implies('error' in kwargs, isinstance(kwargs['error'], BaseException))", [])],
+            assume_asserts=['eventbus is None or isinstance(eventbus, EventBus)'],
+            modifies=[('event_results', 'self'), ('status', '*'), ('result', '*'), ('error', '*'), ('started_at', '*'), ('completed_at', '*'),
+                      ('_handler_completed_signal', '*'), ('ev_set', '*')],
+            ensures=[
+                ('keyed_by_bus_and_handler', HID + ' in ' + R + ' and ' + R + '[' + HID + '] is result', ['C01', 'C07']),
+                ('other_results_untouched', "forall(lambda k: implies(k != " + HID + ", (k in " + R + ") == (k in old(" + R + ")) and implies(k in " + R + ", " + R + "[k] is old(" + R + ")[k])), 'str')", ['C01', 'C08']),
+                ('existing_result_reused', 'implies(' + HID + ' in old(' + R + '), result is old(' + R + ')[' + HID + '])', ['C01']),
+                ('created_for_this_handler', 'implies(' + HID + ' not in old(' + R + '), fresh_object(result) and result.handler_id == ' + HID + ' and result.result_type is self.event_result_type '
+                                             'and len(result.event_children) == 0)', ['C01', 'C12']),
+                ('status_keyword_applied', "implies('status' in kwargs and 'result' not in kwargs and 'error' not in kwargs, result.status == kwargs['status'])", ['C01']),
+                ('error_keyword_recorded', "implies('error' in kwargs and 'status' not in kwargs and 'result' not in kwargs, result.status == 'error' and result.error is kwargs['error'])", ['C11', 'C10']),
+                ('started_when_not_pending', "implies(result.status != 'pending', result.started_at is not None)", ['C01']),
+                ('terminal_has_completed_at', "implies(result.status == 'completed' or result.status == 'error', result.completed_at is not None)", ['C03']),
+                ('started_at_set_once', 'implies(' + HID + ' in old(' + R + ') and old(' + R + '[' + HID + '].started_at) is not None, result.started_at is old(' + R + '[' + HID + '].started_at))', ['C01']),
+                ('result_keyword_untyped', "implies('result' in kwargs and not isinstance(kwargs['result'], BaseException) and 'error' not in kwargs and 'status' not in kwargs and "
+                                           "(result.result_type is None or kwargs['result'] is None or isinstance(kwargs['result'], BaseEvent)), result.status == 'completed' and result.result is kwargs['result'])", ['C12']),
+                ('result_keyword_typed', "implies('result' in kwargs and not isinstance(kwargs['result'], BaseException) and 'error' not in kwargs and 'status' not in kwargs and "
+                                         "not (result.result_type is None or kwargs['result'] is None or isinstance(kwargs['result'], BaseEvent)), "
+                                         "(validates_ok(result.result_type, kwargs['result']) and result.status == 'completed' and result.result is validated(result.result_type, kwargs['result'])) or "
+                                         "(not validates_ok(result.result_type, kwargs['result']) and result.status == 'error' and result.result is None and result.error is not None))", ['C12']),
+                ('returned_exception_is_error', "implies('result' in kwargs and isinstance(kwargs['result'], BaseException), result.status == 'error' and result.error is kwargs['result'] and result.result is None)", ['C11']),
+            ])
+    spec.methods[('BaseEvent', 'event_result_update')] = 'BaseEvent.event_result_update'
